@@ -5,6 +5,8 @@ import (
 	"crypto/ecdsa"
 	"crypto/ed25519"
 	"crypto/elliptic"
+	"crypto/rand"
+	"crypto/rsa"
 	"encoding/base64"
 	"encoding/binary"
 	"fmt"
@@ -179,4 +181,53 @@ func tagZeroKey(owner string, flags uint16) (*sigKey, error) {
 		return sk, nil
 	}
 	return nil, fmt.Errorf("no key with tag 0 found")
+}
+
+// rsaExponentKey builds a 1024-bit RSA zone key with public exponent e, whose DNSKEY public key field
+// states the exponent length in the one-octet form of RFC 3110 s.2 or (long) in the three-octet form
+// (a zero octet followed by a 16-bit length), which a reader has to accept for any length.
+func rsaExponentKey(alg uint8, owner string, flags uint16, e int, long bool) (*sigKey, error) {
+	id := fmt.Sprintf("rsa-exp/%d/%s/%d/%d/%v", alg, owner, flags, e, long)
+	keyMu.Lock()
+	defer keyMu.Unlock()
+	if k, ok := keyCache[id]; ok {
+		return k, nil
+	}
+	for try := 0; try < 200; try++ {
+		base, err := rsa.GenerateKey(rand.Reader, 1024)
+		if err != nil {
+			return nil, err
+		}
+		p, q := base.Primes[0], base.Primes[1]
+		one := big.NewInt(1)
+		phi := new(big.Int).Mul(new(big.Int).Sub(p, one), new(big.Int).Sub(q, one))
+		E := big.NewInt(int64(e))
+		d := new(big.Int).ModInverse(E, phi)
+		if d == nil {
+			continue
+		}
+		priv := &rsa.PrivateKey{PublicKey: rsa.PublicKey{N: new(big.Int).Set(base.N), E: e}, D: d, Primes: []*big.Int{p, q}}
+		priv.Precompute()
+		if priv.Validate() != nil {
+			continue
+		}
+		eb := E.Bytes()
+		var pub []byte
+		if long {
+			pub = append(pub, 0, byte(len(eb)>>8), byte(len(eb)))
+		} else {
+			pub = append(pub, byte(len(eb)))
+		}
+		pub = append(pub, eb...)
+		pub = append(pub, priv.N.Bytes()...)
+		k := &dns.DNSKEY{Hdr: dns.RR_Header{Name: owner, Rrtype: dns.TypeDNSKEY, Class: dns.ClassINET, Ttl: 3600}, Flags: flags, Protocol: 3, Algorithm: alg,
+			PublicKey: base64.StdEncoding.EncodeToString(pub)}
+		if k.KeyTag() == 0 {
+			continue // see getKey
+		}
+		sk := &sigKey{Alg: alg, Bits: 1024, Key: k, Priv: priv}
+		keyCache[id] = sk
+		return sk, nil
+	}
+	return nil, fmt.Errorf("no RSA key with exponent %d found", e)
 }
